@@ -15,9 +15,16 @@ function and of SimpleRandomSamplingWithoutReplacement.sample are validated as t
 binomial_coefficient, enumerate_* and log_prob over enumerate_support are compared with the spec's
 tables (normalisation decided on integers).
 
+code -> spec (Relaxed.tla / RelaxedTrace.tla): the DISCRETE face of LogisticBernoulli / GumbelOneHotCategorical.
+Every rsample / csample / threshold / log_prob / tlog_prob / clog_prob call of seeded runs and of a grid of
+relaxed values (ties included) becomes an event carrying the abstract image of the relaxed value (signs / dense
+ranks), the implementation's threshold, and the three log-densities quantised to 1e-6; TLC validates every
+trace: threshold = H(z), threshold(csample(b)) = b, clog_prob(z, b) finite iff H(z) = b, and
+log_prob(z) = tlog_prob(H(z)) + clog_prob(z, H(z)) on the quantised integers.
+
 NOT decided here (no reals / exp / log / continuous randomness in TLA+): the exact value-mean of the
-relaxation-based estimators (RelaxEstimator / REBAR), threshold(csample(b)) = b and the density
-factorisation of LogisticBernoulli / GumbelOneHotCategorical."""
+relaxation-based estimators (RelaxEstimator / REBAR); that the relaxed densities are the RIGHT densities
+(Logistic / Gumbel) - only their factorisation over the threshold is decided."""
 import json
 import os
 import sys
@@ -627,6 +634,219 @@ def run_relaxed_parameters(ctx, cases):
     ctx.count("relaxed_parameter_cases", len(seen))
 
 
+# ---------------------------------------------------------------------------------------------
+# relaxed distributions: the discrete clauses (Relaxed.tla / RelaxedTrace.tla)
+# ---------------------------------------------------------------------------------------------
+RELAXED_MOD = os.path.join(os.path.dirname(_est.CARD_TRACE_MOD), "Relaxed.tla")
+RELAXED_TRACE_MOD = os.path.join(os.path.dirname(_est.CARD_TRACE_MOD), "RelaxedTrace.tla")
+QUNIT = 1e6
+
+
+def _zq(dist, z):
+    """abstract image of a relaxed vector: signs (bern) / dense ranks (cat) -- all the threshold may depend on"""
+    vals = [float(v) for v in z]
+    if dist == "bern":
+        return [(-1 if v < 0 else (1 if v > 0 else 0)) for v in vals]
+    order = sorted(set(vals))
+    return [order.index(v) for v in vals]
+
+
+def _bits(v, tol=0.0):
+    """0 / 1, or 2 for "not a binary value"; tol > 0 only for the straight-through form b + z - z.detach(), whose
+    VALUE the documentation calls the same discrete sample but which float addition may move by an ulp of z"""
+    out = []
+    for x in v:
+        x = float(x)
+        out.append(0 if abs(x) <= tol else (1 if abs(x - 1.0) <= tol else 2))
+    return out
+
+
+def _q(x):
+    return int(round(float(x) * QUNIT))
+
+
+def _eval_event(lp, tlp, clp, b):
+    lp, tlp, clp = float(lp), float(tlp), float(clp)
+    import math
+    bad = not (math.isfinite(lp) and math.isfinite(tlp)) or math.isnan(clp) or clp == float("inf")
+    if not bad and (abs(lp) > 2000 or abs(tlp) > 2000 or (math.isfinite(clp) and abs(clp) > 2000)):
+        return None  # beyond what 32-bit quantised integers hold: not judged (a limit of the harness)
+    inf = clp == -float("inf")
+    if bad:
+        return dict(a="eval", b=b, bad=True, inf=False, lp=0, tlp=0, clp=0)
+    return dict(a="eval", b=b, bad=False, inf=inf, lp=_q(lp), tlp=_q(tlp), clp=0 if inf else _q(clp))
+
+
+def _relaxed_objects(ctx):
+    """(name, dist kind, n, constructor) over rational parameters k/D, built from probs and from logits"""
+    from pydrobert.torch.distributions import GumbelOneHotCategorical, LogisticBernoulli
+
+    DT = torch.float64
+    objs = []
+    bern = [[2], [1], [7], [4, 1], [1, 6, 4]] if ctx.quick else [[2], [1], [7], [4, 1], [1, 6, 4], [7, 7, 1], [3, 5], [4, 4, 4, 4]]
+    for kk in bern:
+        p = torch.tensor([k / 8 for k in kk], dtype=DT)
+        objs.append(("LogisticBernoulli", "bern", len(kk), kk, 8, "probs", lambda p=p: LogisticBernoulli(probs=p)))
+        objs.append(("LogisticBernoulli", "bern", len(kk), kk, 8, "logits", lambda p=p: LogisticBernoulli(logits=(p / (1 - p)).log())))
+    cat = [[1, 1], [1, 3], [1, 2, 5], [4, 3, 1], [2, 2, 2]] if ctx.quick else [[1, 1], [1, 3], [1, 2, 5], [4, 3, 1], [2, 2, 2], [1, 1, 1, 5], [6, 1, 1], [1, 6, 1], [1, 1, 6]]
+    for kk in cat:
+        w = torch.tensor([float(k) for k in kk], dtype=DT)
+        objs.append(("GumbelOneHotCategorical", "cat", len(kk), kk, sum(kk), "probs", lambda w=w: GumbelOneHotCategorical(probs=w / w.sum())))
+        objs.append(("GumbelOneHotCategorical", "cat", len(kk), kk, sum(kk), "logits", lambda w=w: GumbelOneHotCategorical(logits=w.log() - 1.25)))
+    return objs
+
+
+def _support(dist, n):
+    import itertools
+    if dist == "bern":
+        return [list(t) for t in itertools.product((0, 1), repeat=n)]
+    return [[1 if j == k else 0 for j in range(n)] for k in range(n)]
+
+
+def collect_relaxed_traces(ctx):
+    """one trace per (object, round): the calls made and what came back, abstracted as RelaxedTrace.tla says"""
+    import itertools
+    DT = torch.float64
+    traces, meta = [], {}
+    rounds = 6 if ctx.quick else 40
+    grid1 = [-4.0, -1.0, -1e-3, 0.0, 1e-3, 1.0, 4.0]
+
+    def add(site, dist, n, kk, D, how, events, note):
+        tid = len(traces) + 1
+        traces.append(dict(tid=tid, dist=dist, n=n, events=events))
+        meta[tid] = dict(site=site, dist=dist, n=n, k=kk, D=D, built_from=how, note=note)
+
+    def evals(site, dist, n, kk, D, how, d, z, tag):
+        """eval events of the relaxed value z against every conditioning value"""
+        thr = d.threshold(z)
+        lp, tlp = d.log_prob(z), d.tlog_prob(thr)
+        if dist == "cat":
+            ev = [dict(a="set", zq=_zq(dist, z), thr=_bits(thr), finite=bool(torch.isfinite(z).all()))]
+            for b in _support(dist, n):
+                bt = torch.tensor(b, dtype=DT)
+                ev.append(_eval_event(lp, tlp, d.clog_prob(z, bt), b))
+            ev = [e for e in ev if e is not None]
+            add(site, dist, n, kk, D, how, ev, tag)
+        else:  # element-wise densities: one single-coordinate trace per coordinate
+            cl = {bb: d.clog_prob(z, torch.full_like(z, float(bb))) for bb in (0, 1)}
+            for j in range(n):
+                ev = [dict(a="set", zq=_zq(dist, z[j:j + 1]), thr=_bits(thr[j:j + 1]), finite=bool(torch.isfinite(z[j])))]
+                for bb in (0, 1):
+                    ev.append(_eval_event(lp[j], tlp[j], cl[bb][j], [bb]))
+                ev = [e for e in ev if e is not None]
+                add(site, dist, 1, [kk[j]], D, how, ev, tag + " coord %d" % j)
+
+    for site, dist, n, kk, D, how, make in _relaxed_objects(ctx):
+        for va in (True, False):
+            d = make()
+            d._validate_args = va
+            torch.manual_seed(ctx.seed * 7919 + 17 * len(traces))
+            for rnd in range(rounds if va else max(2, rounds // 3)):
+                ev = []
+                z = d.rsample()
+                thr = d.threshold(z)
+                ev.append(dict(a="rsample", zq=_zq(dist, z), thr=_bits(thr), finite=bool(torch.isfinite(z).all())))
+                thr_st = d.threshold(z, True)
+                ev.append(dict(a="set", zq=_zq(dist, z), thr=_bits(thr_st.detach(), 1e-9), finite=bool(torch.isfinite(thr_st).all())))
+                for b in [_bits(thr)] + _support(dist, n)[: (8 if ctx.quick else 16)]:
+                    if 2 in b:
+                        continue
+                    bt = torch.tensor([float(x) for x in b], dtype=DT)
+                    zc = d.csample(bt)
+                    ev.append(dict(a="csample", b=b, zq=_zq(dist, zc), thr=_bits(d.threshold(zc)),
+                                   finite=bool(torch.isfinite(zc).all())))
+                add(site, dist, n, kk, D, how, ev, "samples validate_args=%s" % va)
+                evals(site, dist, n, kk, D, how, d, z, "rsample value")
+                # a conditional sample evaluated against every conditioning value
+                b0 = _support(dist, n)[rnd % len(_support(dist, n))]
+                zc = d.csample(torch.tensor([float(x) for x in b0], dtype=DT))
+                evals(site, dist, n, kk, D, how, d, zc, "csample value")
+            # batched conditioning values: sample_shape + event layout
+            sup = _support(dist, n)
+            B = torch.tensor(sup, dtype=DT)
+            ZC = d.csample(B)
+            TH = d.threshold(ZC)
+            ev = [dict(a="csample", b=sup[i], zq=_zq(dist, ZC[i]), thr=_bits(TH[i]), finite=bool(torch.isfinite(ZC[i]).all()))
+                  for i in range(len(sup))]
+            add(site, dist, n, kk, D, how, ev, "batched csample")
+        # grid values (ties included for the categorical: the threshold is the FIRST maximum)
+        d = make()
+        pts = list(itertools.product(grid1 if n <= 2 else [-1.0, 0.0, 0.5, 4.0], repeat=n)) if dist == "cat" else \
+            [tuple(grid1[(i + j) % len(grid1)] for j in range(n)) for i in range(len(grid1))]
+        if ctx.quick and len(pts) > 30:
+            pts = pts[:: max(1, len(pts) // 30)]
+        for pt in pts:
+            evals(site, dist, n, kk, D, how, d, torch.tensor(pt, dtype=DT), "grid value")
+    return traces, meta
+
+
+def run_relaxed_traces(ctx):
+    from . import _tracecheck
+
+    cfgd = os.path.dirname(RELAXED_MOD)
+    res = tlc.run(RELAXED_MOD, os.path.join(cfgd, "Relaxed_quick.cfg"), workers=8, timeout=900)
+    tlc.require_ok(res, "Relaxed design check")
+    tlc.require_covered(res, ["RSample", "DoCSample", "DoRecondition"], "Relaxed")
+    ctx.add_tlc("Relaxed_quick", res)
+    try:
+        traces, meta = collect_relaxed_traces(ctx)
+    except (NameError, AttributeError, TypeError, KeyError, IndexError):
+        raise
+    except Exception as ex:
+        _viol(ctx, dict(site="relaxed distributions", kind="exception", exc=type(ex).__name__),
+              "rsample / csample / threshold / *log_prob raised %r" % ex, dict(type="relaxed_trace_exception"))
+        return
+    verdict = _tracecheck.validate(ctx, "RelaxedTrace", RELAXED_TRACE_MOD, os.path.join(cfgd, "RelaxedTrace.cfg"),
+                                   traces, timeout=1500, chunk=4000)
+    kinds = {"rsample": "threshold_image", "set": "threshold_image", "csample": "csample_does_not_threshold_back",
+             "eval": "density_factorisation"}
+    for t in traces:
+        m = meta[t["tid"]]
+        nt = any(e["a"] == "eval" and not e["inf"] for e in t["events"]) or any(e["a"] == "csample" for e in t["events"])
+        ctx.case(key=("relaxed", m["site"], m["built_from"], tuple(m["k"]), json.dumps(t["events"], sort_keys=True)),
+                 nontrivial=nt, sample=dict(meta=m, events=t["events"][:4]) if t["tid"] % 499 == 7 else None)
+        v = verdict.get(t["tid"])
+        if v is None:
+            continue
+        ev = v.get("event") or {}
+        kind = kinds.get(ev.get("a"), "trace_rejected")
+        if ev.get("a") == "eval" and ev.get("bad"):
+            kind = "density_not_finite"
+        elif ev.get("a") in ("rsample", "set", "csample") and not ev.get("finite", True):
+            kind = "sample_not_finite"
+        elif ev.get("a") == "csample" and ev.get("thr") == ev.get("b"):
+            kind = "threshold_image"
+        _viol(ctx, dict(site=m["site"], kind=kind),
+              "%s (%s, parameters %r/%d from %s): event %r rejected by RelaxedTrace (%s; matched %d events)" % (
+                  m["site"], m["note"], m["k"], m["D"], m["built_from"], ev, v.get("why"), v.get("matched", 0)),
+              dict(type="relaxed_trace", trace=t, meta=m))
+    ctx.traces += len(traces)
+    ctx.count("relaxed_traces_validated", len(traces))
+    ctx.count("relaxed_events", sum(len(t["events"]) for t in traces))
+
+
+def relaxed_selftest(ctx):
+    """binding self-test: a conditional sample on the wrong side / a density off by 1e-3 / a finite density on the
+    wrong branch must each be rejected"""
+    from . import _tracecheck
+
+    cfgd = os.path.dirname(RELAXED_MOD)
+    good = dict(tid=1, dist="cat", n=3, events=[dict(a="csample", b=[0, 1, 0], zq=[0, 2, 1], thr=[0, 1, 0], finite=True),
+                                                dict(a="eval", b=[0, 1, 0], bad=False, inf=False, lp=-3000000, tlp=-1000000, clp=-2000000),
+                                                dict(a="eval", b=[1, 0, 0], bad=False, inf=True, lp=-3000000, tlp=-1000000, clp=0)])
+    bad1 = dict(tid=2, dist="cat", n=3, events=[dict(a="csample", b=[0, 1, 0], zq=[2, 0, 1], thr=[1, 0, 0], finite=True)])
+    bad2 = dict(tid=3, dist="bern", n=1, events=[dict(a="set", zq=[1], thr=[1], finite=True),
+                                                 dict(a="eval", b=[1], bad=False, inf=False, lp=-3000000, tlp=-1000000, clp=-2001000)])
+    bad3 = dict(tid=4, dist="bern", n=1, events=[dict(a="set", zq=[-1], thr=[0], finite=True),
+                                                 dict(a="eval", b=[1], bad=False, inf=False, lp=-3000000, tlp=-1000000, clp=-2000000)])
+    bad4 = dict(tid=5, dist="bern", n=2, events=[dict(a="rsample", zq=[0, -1], thr=[0, 0], finite=True)])
+    v = _tracecheck.validate(ctx, "RelaxedTrace_selftest", RELAXED_TRACE_MOD, os.path.join(cfgd, "RelaxedTrace.cfg"),
+                             [good, bad1, bad2, bad3, bad4])
+    if v.get(1) is not None or any(v.get(i) is None for i in (2, 3, 4, 5)):
+        raise MachineryError("RelaxedTrace self-test: verdicts %r" % v)
+    ctx.count("relaxed_selftest_detected", 4)
+
+
 def selftest(ctx, cases):
     """binding self-test: a corrupted spec weight / a wrong estimator must be flagged"""
     k = next(k for k in sorted(cases) if cases[k]["cs"]["est"] == "direct" and cases[k]["cs"]["n"] == 2
@@ -663,8 +883,12 @@ def run(ctx):
     ctx.assumptions += [
         "NOT DECIDED (no reals in TLA+): exact value-mean of the relaxation-based estimators (RelaxEstimator / REBAR "
         "control variates, StraightThroughEstimator)",
-        "NOT DECIDED: threshold(csample(b)) = b for LogisticBernoulli / GumbelOneHotCategorical (continuous sampling)",
-        "NOT DECIDED: the relaxed density factorisation log_prob = tlog_prob + clog_prob",
+        "relaxed distributions, decided at the abstraction of Relaxed.tla: threshold(csample(b)) = b and threshold = H on "
+        "seeded draws (float64, both validate_args settings, single and batched conditioning values) - a statement about "
+        "the draws made, not about every real number the samplers could return; the factorisation log_prob = tlog_prob + "
+        "clog_prob and clog_prob = -inf off the branch on those draws and on a grid of relaxed values, logarithms "
+        "quantised to 1e-6 (tolerance 3 units), |log-density| <= 2000",
+        "NOT DECIDED: that log_prob IS the Logistic / Gumbel density (normalisation over the reals)",
         "NOT DECIDED: self-normalised importance sampling (documented as biased) and "
         "SequentialLanguageModelDistribution (covered under C07)",
         "probabilities are k/4 (quick) or k/4 and k/8 (thorough); functions and control variates are small integer "
@@ -683,6 +907,8 @@ def run(ctx):
     selftest(ctx, cases)
     run_estimators(ctx, cases)
     run_relaxed_parameters(ctx, [d["cs"] for d in cases.values()])
+    relaxed_selftest(ctx)
+    run_relaxed_traces(ctx)
     run_mh(ctx, mh)
     supports = check_tables(ctx, card_res.records)
     traces = collect_traces(ctx, supports)
